@@ -243,7 +243,7 @@ def generate(run_seed, fault_config="all", jit=False, budget=4.0, max_pto=2, all
         if cfg.random() < 0.04:
             pts = []
         else:
-            pts = cards.gen_points(cfg, pools, name, npts, th)
+            pts = cards.gen_points(cfg, pools, name, npts, th, plant=room >= 3)
         if len(pts) > 6:
             pts = pts[:6]
         spent += per * max(1, len(pts))
